@@ -2,6 +2,7 @@
 From Coq Require Import QArith ZArith String List.
 From Verif.Sem Require Import Field Val QInst Corr.
 From Run Require Import GenUtils GenTof.
+From Run Require GenCascade.
 Import ListNotations.
 Open Scope string_scope.
 
@@ -25,6 +26,8 @@ Definition run (name : string) (l : list inp) : val O :=
     energy_transfer_direct_from_tof O (a 0%nat) (a 1%nat) (a 2%nat) (a 3%nat)
   else if String.eqb name "energy_transfer_indirect_from_tof" then
     energy_transfer_indirect_from_tof O (a 0%nat) (a 1%nat) (a 2%nat) (a 3%nat)
+  else if String.eqb name "wavelength_to_inverse_velocity" then GenCascade.wavelength_to_inverse_velocity O (a 0%nat)
+  else if String.eqb name "propagate_times" then GenCascade.propagate_times O (a 0%nat) (a 1%nat) (a 2%nat)
   else VErr O "unknown-kernel".
 Definition check (c : kcase) : string :=
   cmp_out h mn (run (kname c) (kins c)) (kout c) (ktol c).
